@@ -336,7 +336,15 @@ def prove_contract(c: Contract, registry: dict[str, Contract], tier: str, call=N
         r_, _, dt_ = solve.check(ob.hyps, _z3.BoolVal(False), 400, use_lemmas=False)
         rep["solver_s"] += dt_
         if r_ == _z3.unsat:
-            vac.append(ob.line)
+            # unreachable: by the function's own conditions (dead code, fine) or only through what assumed callee
+            # contracts promise (a contradictory assumption: nothing is proved of that path)?
+            own = [h for h in ob.hyps if h.get_id() not in eng.callee_facts]
+            r2_, _, dt2_ = solve.check(own, _z3.BoolVal(False), 400, use_lemmas=False)
+            rep["solver_s"] += dt2_
+            if r2_ != _z3.unsat:
+                vac.append(ob.line)
+            else:
+                rep["dead_return_paths"] = rep.get("dead_return_paths", 0) + 1
     rep["vacuity_checks"] = len(seen_h)
     if vac:
         rep.update(rung="vacuous", reason=f"the assumptions on the way to the return at line(s) {sorted(set(vac))} are "
